@@ -217,6 +217,8 @@ def sample_config(rng, family=None, families=None, n_range=(2, 14), d_range=(1, 
             cols = [rng.choice([i for i in range(d) if fmask[i]])]     # a column the model really cuts
         cfg["const_cols"] = [[c, choice(rng, [0.0, 1.0, -2.5])] for c in sorted(cols)]
         cfg["const_scope"] = choice(rng, ["first", "all"])
+    if p.get("groups") is not None and rng.random() < 0.15:
+        cfg["group_fmt"] = choice(rng, ["tuples", "arrays", "mixed"])
     if rng.random() < 0.08:
         # hyper-parameters that come out of numpy computations (np.int64 batch sizes, np.float64 rates) are Integral / Real
         cfg["np_scalars"] = True
@@ -356,7 +358,14 @@ def build_params(config, log=None, kernel_raise_at=None):
         # a 0/1 mask may be boolean or integer (the estimator's validation accepts any ndarray)
         p["feature_mask"] = np.array(p["feature_mask"], dtype=bool).astype(config.get("mask_dtype", "bool"))
     if p.get("groups") is not None:
-        p["groups"] = [list(g) for g in p["groups"]]
+        # the members of the list may be any sequence of feature indices: lists, tuples, index arrays
+        fmt = config.get("group_fmt", "lists")
+        conv = {"lists": list, "tuples": tuple, "arrays": lambda g: np.array(g, dtype=int)}
+        if fmt == "mixed":
+            kinds = [list, tuple, conv["arrays"]]
+            p["groups"] = [kinds[i % 3](g) for i, g in enumerate(p["groups"])]
+        else:
+            p["groups"] = [conv[fmt](g) for g in p["groups"]]
     if config.get("np_scalars"):
         p = numpy_scalars(p)
     return p
